@@ -15,7 +15,7 @@ use vpmodel::spec::{mono, ChainSpec};
 pub const DEF: PropDef = PropDef {
     id: "C10",
     level: "fault_enumeration",
-    rule: "fault plans applied to generated chains stored in 2..4 blk files, for the three file-producing callbacks. Enumerated part (fixed generated 6-block chain): every height x input fault {blk file removed, emptied, truncated at 7 positions of the block incl. inside the length prefix and at the last byte (thorough tier: at every byte of one block), index offset past EOF}; 27 RLIMIT_FSIZE limits from 0 to above the largest output file (SIGXFSZ ignored, so writes fail with EFBIG) on an index pre-compacted to table files; ENOSPC injected (strace) at the k-th write to any dump file for k=1..8 and at the first and second write to each single dump file; SIGKILL injected on entry of the k-th openat/write/rename/close touching a dump file for k=1..6 each. Start-up failures {blockchain dir missing, index dir missing, index CURRENT naming a missing manifest, rejected range (--end <= --start), dump folder missing, dump folder path is a regular file}: exit != 0 and no final-named file. One enumerated chain produces > 4 MB per file so that writes fail mid-run, before the final flush. Random part: random chains, ranges and fault plans, a quarter of them into a dump folder that already holds longer stale *.tmp files of an earlier failed run. Oracles: (a) exit 0 => every expected final-named file present and byte-identical to the undisturbed run, no *.tmp; (b) input fault hitting a processed height h => exit != 0, 'Error at height h', no final-named file; (c) output fault that fires => exit != 0 and no final-named file; (d) kill at any point => every final-named file that exists is byte-identical to the undisturbed output. Non-trivial = the fault actually fired (for input/output faults: in the read/write path of the run, not at start-up); distinct by (callback, fault kind, position).",
+    rule: "fault plans applied to generated chains stored in 2..4 blk files, for the three file-producing callbacks. Enumerated part (fixed generated 6-block chain): every height x input fault {blk file removed, emptied, truncated at 7 positions of the block incl. inside the length prefix and at the last byte (thorough tier: at every byte of one block), index offset past EOF - just beyond the end, and 2^32 / 2^40 above the position of a real block}; 27 RLIMIT_FSIZE limits from 0 to above the largest output file (SIGXFSZ ignored, so writes fail with EFBIG) on an index pre-compacted to table files; ENOSPC injected (strace) at the k-th write to any dump file for k=1..8 and at the first and second write to each single dump file; SIGKILL injected on entry of the k-th openat/write/rename/close touching a dump file for k=1..6 each. Start-up failures {blockchain dir missing, index dir missing, index CURRENT naming a missing manifest, rejected range (--end <= --start), dump folder missing, dump folder path is a regular file}: exit != 0 and no final-named file. One enumerated chain produces > 4 MB per file so that writes fail mid-run, before the final flush. Random part: random chains, ranges and fault plans, a quarter of them into a dump folder that already holds longer stale *.tmp files of an earlier failed run. Oracles: (a) exit 0 => every expected final-named file present and byte-identical to the undisturbed run, no *.tmp; (b) input fault hitting a processed height h => exit != 0, 'Error at height h', no final-named file; (c) output fault that fires => exit != 0 and no final-named file; (d) kill at any point => every final-named file that exists is byte-identical to the undisturbed output. Non-trivial = the fault actually fired (for input/output faults: in the read/write path of the run, not at start-up); distinct by (callback, fault kind, position).",
     assumptions: &["crash points are syscall-granular (the directory can only change at syscalls); power loss / fsync ordering is outside the statement", "physical order inside a file equals height order, so the first height lost by a truncation is the truncated block's"],
     run,
     replay,
@@ -28,7 +28,14 @@ pub enum Fault {
     FileEmptied { h: u16 },
     /// cut the file inside block h: `at` selects a position in [start of magic, end of block)
     Truncated { h: u16, at: u32 },
-    OffsetPastEof { h: u16 },
+    /// alias 0: just past the end of the file; 1: the block's own offset + 2^32; 2: the next block's offset + 2^32
+    /// (same file or not); 3: the block's own offset + 2^40 - all far beyond EOF, but equal to a real block
+    /// position modulo 2^32 / 2^40
+    OffsetPastEof {
+        h: u16,
+        #[serde(default)]
+        alias: u8,
+    },
     /// RLIMIT_FSIZE = max_output_size * num / den + delta
     Fsize { num: u32, den: u32, delta: i32 },
     Enospc {
@@ -123,10 +130,15 @@ fn prepare(c: &Case, built: &vpmodel::spec::Built, s: u64, e: u64, with_fault: b
                 fail_height = first_in_range_from(f, i);
                 fired_possible = true;
             }
-            Fault::OffsetPastEof { h } => {
+            Fault::OffsetPastEof { h, alias } => {
                 let i = mono(*h, nb);
                 let fsize = std::fs::metadata(data.join(plan.files.iter().find(|pf| pf.number == plan.recs[i].file).map(|pf| pf.name.clone()).ok_or("file not found")?)).map_err(|e| e.to_string())?.len();
-                plan.recs[i].data_pos = fsize + 4 + (*h as u64 % 1000);
+                plan.recs[i].data_pos = match alias % 4 {
+                    0 => fsize + 4 + (*h as u64 % 1000),
+                    1 => plan.recs[i].data_pos + (1u64 << 32),
+                    2 => plan.recs[(i + 1) % nb].data_pos + (1u64 << 32),
+                    _ => plan.recs[i].data_pos + (1u64 << 40),
+                };
                 let hh = built.blocks[i].0;
                 if hh >= s && hh <= e {
                     fail_height = Some(hh);
@@ -402,7 +414,9 @@ fn enumerated(seed: u64, tier: Tier) -> Vec<Case> {
         for i in 0..nb {
             v.push(mk(Fault::FileRemoved { h: hsel(i) }));
             v.push(mk(Fault::FileEmptied { h: hsel(i) }));
-            v.push(mk(Fault::OffsetPastEof { h: hsel(i) }));
+            for alias in 0..4u8 {
+                v.push(mk(Fault::OffsetPastEof { h: hsel(i), alias }));
+            }
             for at in [0u32, 0x0400_0000, 0x1000_0000, 0x8000_0000, 0xc000_0000, 0xffff_0000, 0xffff_ffff] {
                 v.push(mk(Fault::Truncated { h: hsel(i), at }));
             }
@@ -458,7 +472,7 @@ fn random_strategy(tier: Tier) -> BS<Case> {
         2 => any::<u16>().prop_map(|h| Fault::FileRemoved { h }),
         2 => any::<u16>().prop_map(|h| Fault::FileEmptied { h }),
         4 => (any::<u16>(), any::<u32>()).prop_map(|(h, at)| Fault::Truncated { h, at }),
-        2 => any::<u16>().prop_map(|h| Fault::OffsetPastEof { h }),
+        2 => (any::<u16>(), 0u8..4).prop_map(|(h, alias)| Fault::OffsetPastEof { h, alias }),
         4 => (0u32..=1000, -2i32..=2).prop_map(|(num, delta)| Fault::Fsize { num, den: 1000, delta }),
         2 => (1u32..10, proptest::option::weighted(0.5, 0u8..4)).prop_map(|(k, file)| Fault::Enospc { k, file }),
         4 => (proptest::sample::select(vec!["openat", "write", "rename", "close"]), 1u32..8).prop_map(|(s, k)| Fault::Kill { syscall: s.to_string(), k }),
